@@ -218,7 +218,10 @@ def label_difference(objA, res, objB, A, B):
     survivors = [(p, t) for p, t in tr if t == A and p in tb and not (tb[p] == A)]
     survivors.sort(key=lambda pt: (len(pt[0]), str(pt[0])))
     for p, t in survivors:
-        for prefix, (cls, attr), steps in edges(p):
+        es = edges(p)
+        # the leaf edge first: if the object that holds the table directly does not replace it, no parent is to blame
+        order = [es[-1]] + es[:-1] if len(es) > 1 else es
+        for prefix, (cls, attr), steps in order:
             try:
                 owner = get_at(objA, prefix)
             except Exception:  # noqa
